@@ -97,6 +97,9 @@ func C08(r *ev.Run) {
 		depth = 4
 	}
 	scens := fatAllScens("fatck", r.Quick(), depth)
+	for _, c := range fatConfigs(true) {
+		scens = append(scens, fatAliasScenario(c, "fatck", depth))
+	}
 	// Create-only sweep (plus a depth-1 alphabet) across the cluster-size table boundaries
 	for _, c := range fatSweepConfigs(r.Quick()) {
 		scens = append(scens, &fatScen{Name: "sweep", Cfg: c, Oracle: "fatck", Depth: 2, Letters: []fsOp{
